@@ -303,6 +303,14 @@ fn atoms() -> Vec<Piece> {
         p("F.a * 2 >= F.b", "Test(F.a*2>=F.b)"),
         p("(F.a - F.b) * 2 > 4", "Test((F.a-F.b)*2>4)"),
         p("F.a==1", "Atom(F.a == Int(1))"),
+        // identifier shapes: underscores and digits in every segment position
+        p("F._id == 5", "Atom(F._id == Int(5))"),
+        p("_u.x == 1", "Atom(_u.x == Int(1))"),
+        p("F.n._v >= 2", "Atom(F.n._v >= Int(2))"),
+        p("F.a_b == 1", "Atom(F.a_b == Int(1))"),
+        p("F.x9._y8 != 1", "Atom(F.x9._y8 != Int(1))"),
+        p("first_name_ == 1", "Atom(first_name_ == Int(1))"),
+        p("F.A1 < 3", "Atom(F.A1 < Int(3))"),
     ];
     for (s, tags) in strings() {
         let mut piece = p(&format!("F.s == \"{}\"", s), &format!("Atom(F.s == Str({:?}))", s));
